@@ -825,14 +825,16 @@ fn pick_addrs(rng: &mut Rng, hsa: u64, n: usize) -> Vec<u8> {
 }
 
 /// poll period range (pmin, pmax) in us for a station.  `class` 0 = inside the property's class
-/// (<= Tslot/4) AND outside the known class F12 (3 P + 44 bit + 4 us < Tslot), 2 = anywhere inside
-/// the property's class, 1 = outside it
+/// (<= Tslot/4) AND with the hand-over requirement 2 P + 44 bit + 4 us < Tslot (two receiver polls since
+/// the repair of F20; implied by P <= Tslot/4 for every builder-valid Tslot >= 100 bit, so class 0 and 2
+/// coincide there - before the repair the requirement was 3 P + ... and class 0 avoided the known class),
+/// 2 = anywhere inside the property's class, 1 = outside it
 fn pick_period(rng: &mut Rng, c: &Cfg, class: u8) -> (i64, i64) {
     let tslot = bits_us(c.baud_idx, c.slot);
     let q4 = (tslot / 4).max(1);
     let rate = BAUDS[c.baud_idx].to_rate() as i64;
-    // largest P with slot*10^6 > 3 P rate + 44*10^6 + 4 rate
-    let safe = ((c.slot as i64 * 1_000_000 - 44_000_000 - 4 * rate - 1) / (3 * rate)).max(1);
+    // largest P with slot*10^6 > 2 P rate + 44*10^6 + 4 rate
+    let safe = ((c.slot as i64 * 1_000_000 - 44_000_000 - 4 * rate - 1) / (2 * rate)).max(1);
     let q = if class == 0 { q4.min(safe) } else { q4 };
     let pmax = if class == 1 {
         q4 + 1 + rng.below((tslot - q4).max(1) as u64) as i64
